@@ -253,9 +253,16 @@ impl C06 {
         let d = if deep { 4 } else { 1 + c.free(3, "levels") };
         let order = perm(d, c.free(fact(d), "listing-order"));
         tags.push(["levels:1", "levels:2", "levels:3", "levels:4"][d - 1]);
+        // costed: the structs below the top go by names that differ only in letter case (they stay different structs)
+        let names: [&str; 4] = if d >= 3 && c.cost(2, "struct-names-differ-only-in-case") == 1 {
+            tags.push("hier:names-differ-only-in-case");
+            ["s0_top", "Sub", "SUB", "sub"]
+        } else {
+            LEVEL_NAMES
+        };
         let mut structs: Vec<GdsStruct> = vec![];
         for k in 0..d {
-            let mut s = GdsStruct::new(LEVEL_NAMES[k]);
+            let mut s = GdsStruct::new(names[k]);
             if k + 1 < d {
                 // own geometry of a non-leaf level: an asymmetric rectangle on its own layer/datatype - or (costed)
                 // none at all: a pure wrapper level holding nothing but its reference
@@ -268,7 +275,7 @@ impl C06 {
                     s.elems.push(GdsBoundary { layer: 20 + k as i16, datatype: 1 + k as i16, xy: closed(&[(x0, y0), (x0 + 6, y0), (x0 + 6, y0 + 4 + 2 * k as i32), (x0, y0 + 4 + 2 * k as i32)], (0, 0)), ..Default::default() }.into());
                 }
                 let allow_big = d == 2;
-                s.elems.push(gen_ref(c, LEVEL_NAMES[k + 1], allow_big, &mut tags));
+                s.elems.push(gen_ref(c, names[k + 1], allow_big, &mut tags));
             }
             structs.push(s);
         }
@@ -305,7 +312,7 @@ impl C06 {
         }
         if d == 3 && c.free(2, "shared-leaf") == 1 {
             // the top also places the leaf directly (a DAG, not a chain)
-            structs[0].elems.push(GdsStructRef { name: LEVEL_NAMES[2].into(), xy: gp((5000, 7000)), strans: gdsflat::strans_of(false, 3), ..Default::default() }.into());
+            structs[0].elems.push(GdsStructRef { name: names[2].into(), xy: gp((5000, 7000)), strans: gdsflat::strans_of(false, 3), ..Default::default() }.into());
             tags.push("hier:shared-leaf");
         }
         Case { gds: lib_of(structs, &order), intent: Intent::WellFormed, tags }
@@ -836,7 +843,7 @@ impl CaseDriver for C06 {
     fn describe(&self, tier: Tier) -> Describe {
         let rule = match self.part {
             Part::Hier => format!(
-                "GDS libraries of 1..3 levels (chain top -> ... -> leaf, optionally the top also placing the leaf), structs listed in every order; each reference SREF or AREF x all 8 Manhattan orientations (free); leaf content = one of {KINDS:?} or all seven together (free); costed (deviation bound {}): STRANS spelling (absent / explicit Some(0.0) / present-but-default / the same rotation as a negative angle 90q-360 / beyond one turn 90q+360), offsets {LOCS:?}, array cols x rows in {{1,2,3}}^2, lattice (axis-parallel, rotated with the angle, negative pitch, skewed, columns along y), large arrays 181x181 / 200x200 / 1x32767 / 32767x1 (two-level libraries only), a label inside the leaf shape, a level holding nothing but its reference (no shapes of its own), leaf shapes on (layer, datatype) pairs with data types of 256 / 300 / -1 next to small ones, leaf shapes 6e6 .. 2e9 units away from the origin. Non-trivial = has at least one reference.",
+                "GDS libraries of 1..3 levels (chain top -> ... -> leaf, optionally the top also placing the leaf), structs listed in every order; each reference SREF or AREF x all 8 Manhattan orientations (free); leaf content = one of {KINDS:?} or all seven together (free); costed (deviation bound {}): STRANS spelling (absent / explicit Some(0.0) / present-but-default / the same rotation as a negative angle 90q-360 / beyond one turn 90q+360), offsets {LOCS:?}, array cols x rows in {{1,2,3}}^2, lattice (axis-parallel, rotated with the angle, negative pitch, skewed, columns along y), large arrays 181x181 / 200x200 / 1x32767 / 32767x1 (two-level libraries only), a label inside the leaf shape, a level holding nothing but its reference (no shapes of its own), leaf shapes on (layer, datatype) pairs with data types of 256 / 300 / -1 next to small ones, leaf shapes 6e6 .. 2e9 units away from the origin, struct names that differ only in letter case. Non-trivial = has at least one reference.",
                 self.bound(tier)
             ),
             Part::Deep => "4-level chains, structs in every one of the 24 listing orders, every reference SREF or AREF x 8 orientations (free), leaf content CW rectangle or L-polygon; the costed alphabet of [hier] with deviation bound 1.".into(),
@@ -1033,7 +1040,7 @@ impl CaseDriver for C06 {
                 require_tags(stats, &LATTICE_TAGS)?;
                 require_tags(stats, &BIG_TAGS)?;
                 require_tags(stats, &SPELL_TAGS)?;
-                require_tags(stats, &["levels:1", "levels:2", "levels:3", "hier:leaf-label", "hier:shared-leaf", "hier:wrapper-level", "hier:datatypes-beyond-255", "hier:leaf-far-from-origin"])?;
+                require_tags(stats, &["levels:1", "levels:2", "levels:3", "hier:leaf-label", "hier:shared-leaf", "hier:wrapper-level", "hier:datatypes-beyond-255", "hier:leaf-far-from-origin", "hier:names-differ-only-in-case"])?;
                 require_outcomes(stats, &["ok"])?;
                 let ok = stats.outcomes.get("ok").copied().unwrap_or(0);
                 let err = stats.outcomes.get("err-on-wellformed").copied().unwrap_or(0);
